@@ -48,6 +48,11 @@ package signaling_rpc_server
 //@   ensures forall t *sessionPeerTracker trigger t.recv :: atlock(isobj(t)) && t.recv != atlock(t.recv) ==> ret == nil && t.recv == sendMsg && msgSessionSeqno == atlock(sess.seqno)
 //@   cs Server.mtx ensures forall t *sessionPeerTracker trigger t.recv :: old(isobj(t)) && t.recv != old(t.recv) ==> (localIsPeerA ==> old(sess.peerA) == ourPeerTkr && t == old(sess.peerB)) && (!localIsPeerA ==> old(sess.peerB) == ourPeerTkr && t == old(sess.peerA))
 //@   cs Server.mtx ensures forall t *sessionPeerTracker trigger t.recv :: old(isobj(t)) && t.recv != old(t.recv) ==> sendMsg != nil && sendMsg.SignedMsg != nil && b58ok(sendMsg.SignedMsg.FromPeerId) && b58enc(b58dec(sendMsg.SignedMsg.FromPeerId)) == srcPeerIDStr
+// ... and only on a path that went through ExtractAndVerify of that very message and did not take its
+// error exit (C01's contract says what a nil error means: signed by the key embedded in that sender
+// ID, over its data, in the session-message context)
+//@   assert at call! (*SessionMsg).ExtractAndVerify: recv == sendMsg
+//@   cs Server.mtx ensures forall t *sessionPeerTracker trigger t.recv :: old(isobj(t)) && t.recv != old(t.recv) ==> called(ExtractAndVerify)
 //@   ensures msgSessionSeqno > atlock(sess.seqno) ==> ret != nil
 //@   cs Server.mtx ensures sess.seqno == old(sess.seqno) && sess.peerA == old(sess.peerA) && sess.peerB == old(sess.peerB)
 
@@ -173,6 +178,9 @@ package signaling_rpc_server
 // with a pending or in-flight message, nor with an acknowledgement or a clear still to be relayed
 // (C21: acknowledgements and clears affect the message they name, in the session they were made in).
 //@   cs Server.mtx ensures forall t *sessionTracker trigger t.seqno :: old(isobj(t)) && t.seqno != old(t.seqno) ==> (t.peerA != nil ==> t.peerA.recv == nil && t.peerA.recvSent == nil && t.peerA.recvClear == nil && t.peerA.outAcked == nil) && (t.peerB != nil ==> t.peerB.recv == nil && t.peerB.recvSent == nil && t.peerB.recvClear == nil && t.peerB.outAcked == nil)
+// C21: a transmission record is only ever set by the write loop, on its own tracker, to the sequence
+// number of the pending message it takes for forwarding in the same section
+//@   cs Server.mtx ensures forall t *sessionPeerTracker trigger t.recvSent :: old(isobj(t)) && t.recvSent != old(t.recvSent) && t.recvSent != nil ==> t == ourPeerTkr && old(t.recv) != nil && deref(t.recvSent) == old(t.recv.Seqno)
 //@   cs Server.mtx#1 ensures (sessKey in self.sessions) && self.sessions[sessKey] == sess && (localIsPeerA ==> sess.peerA == ourPeerTkr) && (!localIsPeerA ==> sess.peerB == ourPeerTkr)
 //@   cs Server.mtx#1 ensures ourPeerTkr.recv == nil && ourPeerTkr.recvSent == nil && ourPeerTkr.recvClear == nil && ourPeerTkr.outAcked == nil
 //@   cs Server.mtx#1 ensures (dstPeerIDStr in self.peers) && self.peers[dstPeerIDStr] == dstPeer && (srcPeerIDStr in dstPeer.wantPeers)
